@@ -278,6 +278,14 @@ def mk_bin(op, a, b, opty, ty):
                 return mk_not(a) if b[1] else a
             if a[0] == 'c':
                 return mk_not(b) if a[1] else b
+    if op in ('Lt', 'Le', 'Gt', 'Ge') and a[0] == 'call' and b[0] == 'call' and a[1] == 'kth' and b[1] == 'kth' \
+            and len(a[2]) == len(b[2]) and a[2][0][0] == 'c' and b[2][0][0] == 'c' and all(x is y for x, y in zip(a[2][1:], b[2][1:])):
+        # two order statistics of the same elements: the i-th smallest is <= the j-th smallest whenever i <= j
+        i_, j_ = a[2][0][1], b[2][0][1]
+        if op == 'Le' and i_ <= j_ or op == 'Ge' and i_ >= j_:
+            return TRUE
+        if op == 'Lt' and i_ >= j_ or op == 'Gt' and i_ <= j_:
+            return FALSE
     if op in ('Eq', 'Le', 'Ge') and a is b and opty not in ('f32', 'f64'):
         return TRUE
     if op in ('Ne', 'Lt', 'Gt') and a is b and opty not in ('f32', 'f64'):
